@@ -6,6 +6,9 @@ package sign
 // Output gates (C01). Receiver: the result (and the signature sent to the sender) is produced only for a
 // signature the textbook ECDSA equation accepts for the configured public key and this session's hash.
 //@ func (*round2R).Finalize
+// (C04, C05) the round handed to the handler is one the session announced: its number is within the final round
+// number, so the handler holds a queue for it and waits for every party before finalizing it
+//@   ensures[C04,C05] result1 == nil ==> result0.Number() <= old(r.Helper.info.FinalRoundNumber)
 //@   nopanic[C05]
 //@   requires s2rok(r) && out != nil && !closed(out) && len(r.hash) > 0
 //@   requires r.RPrime != nil && r.RProof != nil && zksch.shapedProof(r.RProof) && r.MulMsg0 != nil && r.MulMsg1 != nil && r.MulMsg2 != nil && r.MuPhi != nil && r.MuSig != nil
@@ -33,6 +36,9 @@ package sign
 //@   let body = msg.Content.(*message2R)
 //@   ensures[C01,C03] r.Sig.R == body.Sig.R && r.Sig.S == body.Sig.S
 //@ func (*round2S).Finalize
+// (C04, C05) the round handed to the handler is one the session announced: its number is within the final round
+// number, so the handler holds a queue for it and waits for every party before finalizing it
+//@   ensures[C04,C05] result1 == nil ==> result0.Number() <= old(r.Helper.info.FinalRoundNumber)
 //@   nopanic[C05]
 //@   requires r != nil && r.round1S != nil && r.Helper != nil && out != nil && !closed(out)
 //@   assert_at[C01] ResultRound "return r.ResultRound(&r.Sig)": typeis(arg1, *ecdsa.Signature) && arg1.(*ecdsa.Signature) == r.Sig
@@ -51,6 +57,8 @@ package sign
 //@   ensures[C20] result1 == nil ==> (result0 != nil && config != nil && config.Public != nil && config.SecretShare != nil && config.Setup != nil && len(hash) > 0)
 // (induction on the session object) the first round starts from the state invariant its methods assume
 //@   ensures result1 == nil ==> (typeis(result0, *round1R) && s1rok(result0.(*round1R)))
+// (C04, C05) the announced final round number covers every round the session can reach, the identifiable-abort rounds included
+//@   ensures[C04,C05] result1 == nil ==> result0.(*round1R).Helper.info.FinalRoundNumber >= 2
 //@ func StartSignSender$1
 //@   nopanic[C20]
 // (C09) the session tag is derived under the signing protocol's OWN identifier -- distinct from every other protocol's
@@ -59,9 +67,11 @@ package sign
 //@   ensures[C20] result1 == nil ==> (result0 != nil && config != nil && config.Public != nil && config.SecretShare != nil && config.Setup != nil && len(hash) > 0)
 // (induction on the session object) the first round starts from the state invariant its methods assume
 //@   ensures result1 == nil ==> (typeis(result0, *round1S) && s1sok(result0.(*round1S)))
+// (C04, C05) the announced final round number covers every round the session can reach, the identifiable-abort rounds included
+//@   ensures[C04,C05] result1 == nil ==> result0.(*round1S).Helper.info.FinalRoundNumber >= 2
 
 // ---- round state invariants and acceptance gates of the signing rounds (C03, C05)
-//@ pred shok(h *round.Helper) := h != nil && h.hash != nil && h.hash.h != nil && h.info.Group != nil && typeis(h.info.Group, curve.Secp256k1) && !held(h.mtx)
+//@ pred shok(h *round.Helper) := h != nil && h.info.FinalRoundNumber >= 2 && h.hash != nil && h.hash.h != nil && h.info.Group != nil && typeis(h.info.Group, curve.Secp256k1) && !held(h.mtx)
 //@ pred s1sok(r *round1S) := r != nil && shok(r.Helper) && r.config != nil && r.config.Public != nil && r.config.SecretShare != nil && r.config.Setup != nil
 //@ pred s1rok(r *round1R) := r != nil && shok(r.Helper) && r.config != nil && r.config.Public != nil && r.config.SecretShare != nil && r.config.Setup != nil
 //@ pred s2rok(r *round2R) := r != nil && s1rok(r.round1R) && r.kBInv != nil && r.D != nil && ot.mrok(r.multiply0) && ot.mrok(r.multiply1) && ot.mrok(r.multiply2)
@@ -100,6 +110,9 @@ package sign
 // Finalize of both first rounds: they construct the multiplication instances (whose state invariant the second round
 // relies on) and, on the sender's side, consume the receiver's multiplication messages -- of any shape -- without a panic.
 //@ func (*round1R).Finalize
+// (C04, C05) the round handed to the handler is one the session announced: its number is within the final round
+// number, so the handler holds a queue for it and waits for every party before finalizing it
+//@   ensures[C04,C05] result1 == nil ==> result0.Number() <= old(r.Helper.info.FinalRoundNumber)
 //@   nopanic[C05]
 //@   requires s1rok(r) && out != nil && !closed(out)
 //@   ensures result1 == nil ==> (typeis(result0, *round2R) && s2rok(result0.(*round2R)))
@@ -109,6 +122,9 @@ package sign
 //@   ensures typeis(result0, *round.Abort) ==> result0.(*round.Abort).Err != nil
 //@   ensures typeis(result0, *round.Output) ==> result0.(*round.Output).Result != nil
 //@ func (*round1S).Finalize
+// (C04, C05) the round handed to the handler is one the session announced: its number is within the final round
+// number, so the handler holds a queue for it and waits for every party before finalizing it
+//@   ensures[C04,C05] result1 == nil ==> result0.Number() <= old(r.Helper.info.FinalRoundNumber)
 //@   nopanic[C05]
 //@   requires s1sok(r) && out != nil && !closed(out) && len(r.hash) > 0 && r.D != nil && r.mulMsg0 != nil && r.mulMsg1 != nil && r.mulMsg2 != nil
 // refinement of the interface contract of round.Round.Finalize (what the handler relies on)
